@@ -18,7 +18,8 @@ RULE = (
 )
 REQUIRED = ["all_checked", "comp_checked", "bt_checked", "max_results_checked", "threshold_checked",
             "prefilter_checked", "multi_component_patterns", "host_fewer_components", "bt_fallback_used",
-            "strict_guard_checked", "hcount_discriminates", "selfcheck_bruteforce_vs_permutations"]
+            "strict_guard_checked", "hcount_discriminates", "selfcheck_bruteforce_vs_permutations",
+            "big_count_threshold_checked", "molecule_plus_lone_atoms_hosts"]
 ASSUMPTIONS = [
     "COMPONENT/BACKTRACK with max_results: only '<= k results, each a valid member of the unlimited set' is demanded",
     "threshold t: [] required when the unlimited result has more than t maps, the full set required when every internal count is <= t, either accepted in between",
@@ -181,6 +182,80 @@ def check_pair(ctx, host, pattern, tag, key, light=False):
              if (ctx.evaluations < 2 or rng.random() < 0.0005) else None)
 
 
+def atoms_graph(spec, bonds=()):
+    G = nx.Graph()
+    for i, el in enumerate(spec, start=1):
+        G.add_node(i, element=el, hcount=0, charge=0, aromatic=False, atom_map=i, neighbors=[])
+    for u, v, o in bonds:
+        G.add_edge(u, v, order=float(o), standard_order=0.0)
+    return G
+
+
+def check_big_counts(ctx):
+    """embedding counts above the engine's default cap (5000) with an explicit, larger caller threshold: the caller's
+    threshold is the one that counts, in every strategy and fallback."""
+    from synkit.Graph.Matcher.subgraph_matcher import SubgraphSearchEngine as E
+
+    cases = [("8 isolated C vs 5 isolated C", atoms_graph("C" * 8), atoms_graph("C" * 5)),
+             ("7 isolated C + N vs 5 isolated C", atoms_graph("C" * 7 + "N"), atoms_graph("C" * 5)),
+             ("star C(C)(C)(C)(C)(C)(C)C vs star with 6 leaves", atoms_graph("C" * 8, [(1, k, 1) for k in range(2, 9)]),
+              atoms_graph("C" * 7, [(1, k, 1) for k in range(2, 8)]))]
+    for i, (name, host, pat) in enumerate(cases):
+        if not ctx.mine(i):
+            continue
+        L = B.embeddings(pat, host, node_ok, edge_ok, induced=False)
+        n = len(L)
+        Ls = {fz(m) for m in L}
+        ctx.count("big_count_cases")
+        wit = {"host": WG.describe(host), "pattern": WG.describe(pat), "monomorphisms": n}
+        for strat in ("all", "bt", "comp"):
+            for thr, want_full in ((10000, True), (n, True), (n - 1, False)):
+                r = E.find_subgraph_mappings(host, pat, node_attrs=NODE_ATTRS, edge_attrs=EDGE_ATTRS, strategy=strat,
+                                             threshold=thr, strict_cc_count=False)
+                ctx.count("big_count_threshold_checked")
+                got = {fz(m) for m in r}
+                if want_full and got != Ls and not (strat == "comp" and nx.number_connected_components(pat) > 1 and got <= Ls and thr < 10000):
+                    ctx.violation("threshold-above-default-cap", {**wit, "strategy": strat, "threshold": thr},
+                                  f"{name}: {strat} with threshold={thr} returned {len(r)} maps; there are {n} (<= the caller's threshold)")
+                if not want_full and strat == "all" and r:
+                    ctx.violation("threshold-above-default-cap", {**wit, "strategy": strat, "threshold": thr},
+                                  f"{name}: all with threshold={thr} returned {len(r)} maps although {n} exceed the threshold")
+            r = E.find_subgraph_mappings(host, pat, node_attrs=NODE_ATTRS, edge_attrs=EDGE_ATTRS, strategy=strat, max_results=6000,
+                                         threshold=10000, strict_cc_count=False)
+            if len(r) != min(n, 6000) or not {fz(m) for m in r} <= Ls:
+                ctx.violation("threshold-above-default-cap", {**wit, "strategy": strat, "max_results": 6000},
+                              f"{name}: {strat} with max_results=6000, threshold=10000 returned {len(r)} maps of {n}")
+        ctx.case(("big", name), nontrivial=True, sample={"space": "counts above the default cap", "case": name, "monomorphisms": n})
+
+
+def check_small_component_hosts(ctx):
+    """component-aware search, patterns whose components all have >= 2 atoms, hosts = a molecule plus lone atoms / ions."""
+    rng = ctx.rng
+    pats = [atoms_graph("CCCC", [(1, 2, 1), (3, 4, 1)]), atoms_graph("CCCO", [(1, 2, 1), (3, 4, 1)]),
+            atoms_graph("CCCCC", [(1, 2, 2), (3, 4, 1), (4, 5, 1)]), atoms_graph("CCCCCC", [(1, 2, 1), (3, 4, 1), (5, 6, 1)]),
+            atoms_graph("CONC", [(1, 2, 2), (3, 4, 1)])]
+    mols = [atoms_graph("CCCC", [(1, 2, 1), (2, 3, 1), (3, 4, 1)]), atoms_graph("CCCCO", [(1, 2, 1), (2, 3, 1), (3, 4, 1), (4, 5, 1)]),
+            atoms_graph("CCCCC", [(1, 2, 2), (2, 3, 1), (3, 4, 1), (4, 5, 1)]), atoms_graph("COCNC", [(1, 2, 2), (1, 3, 1), (3, 4, 1), (4, 5, 1)]),
+            atoms_graph("CCCCCC", [(1, 2, 1), (2, 3, 1), (3, 4, 1), (4, 5, 1), (5, 6, 1), (6, 1, 1)])]
+    k = 0
+    for pi, P in enumerate(pats):
+        for mi, M in enumerate(mols):
+            for lone in (("O",), ("O", "O"), ("C",), ("N", "C", "O"), ()):
+                k += 1
+                if not ctx.mine(k):
+                    continue
+                H = M.copy()
+                base = max(H.nodes)
+                for j, el in enumerate(lone, start=1):
+                    H.add_node(base + j, element=el, hcount=0, charge=0, aromatic=False, atom_map=base + j, neighbors=[])
+                if rng.random() < 0.3:
+                    H = nx.union(H, nx.relabel_nodes(atoms_graph("CC", [(1, 2, 1)]), {1: base + 10, 2: base + 11}))
+                H, _ = WG.scramble(H, rng)
+                Ps, _ = WG.scramble(P, rng)
+                ctx.count("molecule_plus_lone_atoms_hosts")
+                check_pair(ctx, H, Ps, "multi-atom pattern components x hosts with lone atoms", ("lone", pi, mi, lone), light=(k % 3 != 0))
+
+
 def selfcheck(ctx):
     """the back-tracking oracle itself vs a permutation-based enumeration on tiny pairs."""
     rng = ctx.rng
@@ -196,6 +271,8 @@ def selfcheck(ctx):
 def run(ctx):
     rng = ctx.rng
     selfcheck(ctx)
+    check_small_component_hosts(ctx)
+    check_big_counts(ctx)
     hosts, pats = [], []
     hmax = 3 if ctx.quick else 4
     for n in range(1, hmax + 1):
